@@ -87,6 +87,14 @@ def op_write_xml(F, sc, pps):
     F.method(w, "write_to_file", path, OverwriteExistingFile.ALWAYS)
 
 
+def op_write_pb(F, sc, pps):
+    import os
+
+    path = os.path.join(scratch_dir("c18_"), "out.pb") if F.native else "/nonexistent-dir/c18.pb"
+    w = F.new(CommonRoadFileWriter, sc, pps, file_format=FileFormat.PROTOBUF)
+    F.method(w, "write_to_file", path, OverwriteExistingFile.ALWAYS)
+
+
 ALL = ("network", "static", "dynamic", "setbased", "phantom", "environment")
 OPS = {
     "occupancy and state queries": (op_queries, ("static", "dynamic", "setbased", "phantom", "environment"), True, False),
@@ -95,6 +103,7 @@ OPS = {
     "equality and hashing": (op_eq_hash, ALL, False, True),
     "deepcopy and pickling state": (op_copy, ("network", "static", "dynamic"), False, False),
     "writing to XML": (op_write_xml, ALL, False, True),
+    "writing to protobuf": (op_write_pb, ALL, False, True),
 }
 
 for _name, (_op, _content, _custom, _pps) in OPS.items():
@@ -109,7 +118,12 @@ for _name, (_op, _content, _custom, _pps) in OPS.items():
         describe = "every observable attribute of the scenario, its obstacles and states, the lanelet network and the planning problems is unchanged"
 
         def build(self, F):
-            sc = mk_scenario(F, self.content)
+            if self.op is op_write_pb:
+                from contracts.c02 import WEATHER, fits_int32
+
+                sc = mk_scenario(F, self.content, weather=WEATHER)  # an enumeration member the .proto files define
+            else:
+                sc = mk_scenario(F, self.content)
             if "network" in self.content:
                 # a lanelet built with the constructor's defaults (no lanelet type, no markings, no adjacencies)
                 from commonroad.scenario.lanelet import Lanelet
@@ -121,6 +135,8 @@ for _name, (_op, _content, _custom, _pps) in OPS.items():
             from commonroad.planning.planning_problem import PlanningProblemSet
 
             pps = mk_planning_problems(F) if self.with_pps else F.new(PlanningProblemSet)
+            if self.op is op_write_pb:
+                fits_int32(F)
             return {"sc": sc, "pps": pps, "args": [], "snap_sc": F.snapshot(sc), "snap_pps": F.snapshot(pps)}
 
         def invoke(self, F, inp):
